@@ -69,7 +69,12 @@ def shards(tier, seed):
         split(dict(N=4, G=2, times="rev"), 24, "quick", "some")
         # a tree exactly one ulp wide (seek arithmetic on coordinates must not round across it)
         split(dict(N=2, G=3, times="id", grid="ulp"), 30, "quick")
+        # unsquashed edge tables: one (parent, child) branch stored as abutting edge rows, so that a
+        # breakpoint exists where the topology does not change but the edge ids do
+        split(dict(N=3, G=2, times="id", squash=False), 30, "quick")
+        split(dict(N=2, G=3, times="id", squash=False), 30, "quick")
     else:
+        split(dict(N=3, G=3, times="id", squash=False), 30, "quick", "some")
         split(dict(N=3, G=3, times="id", grid="ulp"), 30, "quick", "some")
         split(dict(N=1, G=2, times="id"), 30, "full")
         split(dict(N=2, G=3, times="weak"), 30, "full")
